@@ -7,6 +7,7 @@ import (
 	"encoding/json"
 	"fmt"
 	"os"
+	"path/filepath"
 	"strconv"
 	"strings"
 	"syscall"
@@ -56,6 +57,16 @@ func runsOf(s string) []any {
 		i = j
 	}
 	return out
+}
+
+func isNilMetadata(md intoto.Metadata) bool {
+	switch m := md.(type) {
+	case *intoto.Metablock:
+		return m == nil
+	case *intoto.Envelope:
+		return m == nil
+	}
+	return md == nil
 }
 
 func numOf(v any) int {
@@ -115,7 +126,50 @@ func init() {
 		}
 	}})
 	regOp(&Op{Name: "runerr", Impl: func(a map[string]any) any {
-		_, err := intoto.RunCommand(anyStrs(a["argv"]), "")
+		// materialise the class: a real file without execute permission, a real directory, a working
+		// directory that does not exist …; through RunCommand and through InTotoRun (which must not
+		// produce a link for a command that never ran)
+		base := filepath.Join(scratch(), "runerr")
+		os.RemoveAll(base)
+		os.MkdirAll(base, 0o755)
+		argv, runDir := []string{"sh", "-c", "exit 3"}, ""
+		switch str(a["class"]) {
+		case "startable":
+			if b, _ := a["explicit_path"].(bool); b {
+				p := filepath.Join(base, "ok.sh")
+				os.WriteFile(p, []byte("#!/bin/sh\nexit 0\n"), 0o755)
+				argv = []string{p}
+			}
+			if b, _ := a["with_dir"].(bool); b {
+				runDir = base
+			}
+		case "empty":
+			argv = []string{}
+		case "notfound":
+			argv = []string{str(a["name"])}
+		case "notexec":
+			p := filepath.Join(base, "plain.txt")
+			os.WriteFile(p, []byte("#!/bin/sh\nexit 0\n"), 0o644)
+			argv = []string{p}
+		case "isdir":
+			argv = []string{base}
+		default: // badrundir
+			runDir = filepath.Join(base, str(a["name"]))
+			if b, _ := a["dir_is_file"].(bool); b {
+				os.WriteFile(runDir, []byte("x"), 0o644)
+			}
+		}
+		res, err := intoto.RunCommand(argv, runDir)
+		if (err != nil) != (res == nil) {
+			return "error-and-result-disagree"
+		}
+		if len(argv) > 0 {
+			// InTotoRun with the same command: an error exactly when RunCommand gave one
+			md, rerr := intoto.InTotoRun("s", runDir, []string{}, []string{}, argv, pool()[4].Full, []string{"sha256"}, nil, nil, false, false, false)
+			if (rerr != nil) != (err != nil) || (rerr != nil && md != nil && !isNilMetadata(md)) {
+				return "run-and-runcommand-disagree"
+			}
+		}
 		return err != nil
 	}})
 	props["C14"] = runC14
@@ -166,5 +220,27 @@ func runC14(r *Runner, tier string, rng *Rng) {
 		}
 	}
 	flush()
-	r.St.Rule = "real commands (sh -c with head -c N /dev/zero >&fd) writing volumes from {0, 1, cap-1, cap, cap+1, 4*cap (thorough: 200000, 4 MiB), random} to stdout and stderr in 1-4 chunks in any order, ending with exit status 0..255 or SIGKILL, in two working directories, each under a 20 s deadline; every chunk written in its own letter; compared: completion, captured byte counts AND run-length encoded content of both streams, return value. Class = (chunk pattern in units of the pipe capacity, ending)."
+	// commands that cannot be started, in every way a start can fail (and startable controls)
+	type sc struct {
+		class string
+		extra map[string]any
+	}
+	var starts []sc
+	for _, nm := range []string{"definitely-not-a-command-zz", "./nope", "/nonexistent/dir/tool", "no such", ""} {
+		starts = append(starts, sc{"notfound", map[string]any{"name": nm}})
+	}
+	starts = append(starts, sc{"empty", nil}, sc{"notexec", nil}, sc{"isdir", nil},
+		sc{"badrundir", map[string]any{"name": "missing"}}, sc{"badrundir", map[string]any{"name": "afile", "dir_is_file": true}},
+		sc{"startable", nil}, sc{"startable", map[string]any{"explicit_path": true}}, sc{"startable", map[string]any{"with_dir": true}},
+		sc{"startable", map[string]any{"explicit_path": true, "with_dir": true}})
+	for _, st := range starts {
+		args := map[string]any{"class": st.class}
+		for k, v := range st.extra {
+			args[k] = v
+		}
+		r.St.Count("start_classes")
+		batch = append(batch, Case{Op: "runerr", Args: args, Feat: "start:" + st.class})
+	}
+	flush()
+	r.St.Rule = "real commands (sh -c with head -c N /dev/zero >&fd) writing volumes from {0, 1, cap-1, cap, cap+1, 4*cap (thorough: 200000, 4 MiB), random} to stdout and stderr in 1-4 chunks in any order, ending with exit status 0..255 or SIGKILL, in two working directories, each under a 20 s deadline; every chunk written in its own letter; compared: completion, captured byte counts AND run-length encoded content of both streams, return value. plus commands that cannot be started in every way a start can fail (no command, not found, not executable, a directory, missing / non-directory working directory) next to startable controls, through RunCommand and InTotoRun: error exactly when not startable. Class = (chunk pattern in units of the pipe capacity, ending / start class)."
 }
